@@ -58,4 +58,22 @@ CHECKS = {
          'candidate whose status (or pending flag) changes there and every status change is so announced, end == E.elected/E.defeated; dump rows/columns and every field, '
          'json.loads(json()) == stringified record (millions of leaves per run), report blocks (status lines and totals recomputed from raw tallies) all agree.',
     note='Single-value printing is C14\'s; names are unique and free of ", " / ": "; QPQ restart applied virtually. Report parsed tolerantly by labels, not byte-compared.'),
+ 'C12': dict(level='exploration', ref='DESIGN.md 3/C12',
+    technique='runtime contracts (postconditions against a fractions.Fraction shadow) wrapped from outside around every public operator and classmethod of Fixed and Rational; exhaustive small grid + random operands + contracts left on during real counts',
+    text='Every call of +,-,*,/,//,__div__,mul,div,muldiv (both roundings),neg,pos,abs,bool,six comparisons,min on Fixed and of the arithmetic operators '
+         '(incl. reflected), mul/div/muldiv on Rational is checked against exact rational arithmetic: exactness, floor rounding, +1 ulp only when inexact and '
+         'round=up, result type, operands not mutated. The grid [-60,60]^2 (+boundaries) and [-13,13]^3 x precision 0..4 is swept completely; random operands to 10^40, '
+         'precision to 30; tens of millions of in-situ evaluations inside real counts per quick run.',
+    note='Trusted shadow: Python ints and fractions.Fraction. Zero divisors not judged. Small grid exhaustive; everything else sampled.'),
+ 'C13': dict(level='exploration', ref='DESIGN.md 3/C13',
+    technique='runtime contracts on the Guarded comparison operators (tolerance law) + relational monitors: Guarded(guard 0) vs Fixed per operation and per count, guarded vs rational counts under the clean-statistics premise',
+    text='(a) every Guarded comparison evaluated is checked against the tolerance law; the boundary differences {0,1,geps-1,geps,geps+1,2geps} are swept for all p,g in 0..6. '
+         '(b) Guarded(p,0) and Fixed(p) give identical raw results, strings and comparisons on grids/random operands, and identical histories and dumps for wigm/meek/warren counts. '
+         '(c) thousands of guarded/rational count pairs: under the premise the action sequences, statuses and every tally/quota (within 10^-p) must agree.',
+    note='(c) uses a fixed numeric reading of "no comparison near the tolerance": maxDiff*1e3 <= geps <= minDiff/1e3 and 2*ulp*ballots*actions <= geps/1e3; pairs outside are not evaluated. Rational Meek only on tiny profiles.'),
+ 'C14': dict(level='exploration', ref='DESIGN.md 3/C14',
+    technique='runtime contract on __str__ of Fixed, Guarded and Rational (half-up of the exact value, digit count, underscore, sign, value unchanged), swept around carries and left installed while real counts are rendered',
+    text='Every str() of a value object is checked against the exact value rounded half-up at the display digits. All raw values in [-1300,1300] and within 3 of every carry/half-unit '
+         'boundary are swept for precision, guard, display in 0..5 (complete for that sub-space); random magnitudes to 10^40; rational ties; every figure printed by report/dump/json of thousands of counts goes through the contract.',
+    note='Known finding C14/guarded-p0-underscore. Negative exact ties: half-up and half-away-from-zero both accepted. Whether renderings use str() of the recorded value is checked by C18.'),
 }
